@@ -662,7 +662,7 @@ class WriterOracle(Oracle):
     POOL = [["1", "ab"], ["2", "c"], ["1", "zz"], ["x", "ab"], ["3"], ["4", "ab", "q"], ["5", "toolong"], ["6", ""]]
     def cases(self, ctx):
         k = 0
-        for fmt in ("delimited", "fixed", "fixed-crlf", "fixed-cr"):
+        for fmt in ("delimited", "fixed", "fixed-crlf", "fixed-cr", "fixed-none"):
             for header in (0, 1):
                 for n in range(0, 7 if ctx.thorough else 5):
                     if fmt.startswith("fixed-") and n > 2: continue
@@ -673,12 +673,12 @@ class WriterOracle(Oracle):
     def cid(self, fmt, header):
         from cutplace import interface
         if fmt == "delimited": text = "d,format,delimited\nd,header,%d\nf,id,,,1...3,Integer\nf,name,,x,...3\nc,u,IsUnique,id\n" % header
-        else: text = "d,format,fixed\nd,header,%d\nd,line delimiter,%s\nf,id,,,3,Integer\nf,name,,x,3\nc,u,IsUnique,id\n" % (header, {"fixed": "lf", "fixed-crlf": "crlf", "fixed-cr": "cr"}[fmt])
+        else: text = "d,format,fixed\nd,header,%d\nd,line delimiter,%s\nf,id,,,3,Integer\nf,name,,x,3\nc,u,IsUnique,id\n" % (header, {"fixed": "lf", "fixed-crlf": "crlf", "fixed-cr": "cr", "fixed-none": "none"}[fmt])
         return interface.create_cid_from_string(text)
     def check(self, c):
         from cutplace import validio, errors
         fmt0, header, idx = c
-        cid = self.cid(fmt0, header); fmt = "fixed" if fmt0.startswith("fixed") else fmt0; sep = {"delimited": "\r\n", "fixed": "\n", "fixed-crlf": "\r\n", "fixed-cr": "\r"}[fmt0]
+        cid = self.cid(fmt0, header); fmt = "fixed" if fmt0.startswith("fixed") else fmt0; sep = {"delimited": "\r\n", "fixed": "\n", "fixed-crlf": "\r\n", "fixed-cr": "\r", "fixed-none": ""}[fmt0]
         list(validio.rows(cid, io.StringIO("1,ab\n" if fmt == "delimited" and header == 0 else ""), on_error="continue"))   # earlier use of the same CID must not matter (C08)
         out = io.StringIO(); w = validio.Writer(cid, out)
         accepted = []; seen = set(); pos = 0
@@ -760,12 +760,34 @@ class WriterFileOracle(Oracle):
     def describe(self, c): return {"format": c[0], "line delimiter": c[1], "encoding": c[2], "rows": c[3], "call": "validio.Writer(cid, path).write_row per row, close, validio.rows(cid, path)"}
 
 
+def _writer_close_with_failing_end_check(fmt):
+    """a CID whose end-of-data check fails when the writer is closed: the rows accepted before are in the file, and the file is closed"""
+    import tempfile, os, shutil
+    from cutplace import interface, validio, errors
+    text = ("d,format,delimited\nf,a\nf,b\nc,few,DistinctCount,a < 2\n" if fmt == "delimited" else "d,format,fixed\nd,line delimiter,lf\nf,a,,,2\nf,b,,,2\nc,few,DistinctCount,a < 2\n")
+    d = tempfile.mkdtemp(prefix="c14_"); path = os.path.join(d, "out.txt")
+    try:
+        w = validio.Writer(interface.create_cid_from_string(text), path)
+        rows = [["a1", "b1"], ["a2", "b2"], ["a3", "b3"]]
+        for r in rows: w.write_row(list(r))
+        try: w.close(); return {"expected": "CheckError from close() (3 distinct values, rule a < 2)", "observed": "closed without error"}
+        except errors.CheckError: pass
+        raw = open(path, "r", encoding="cp1252", newline="").read()
+        want = "".join((",".join(r) + "\r\n") if fmt == "delimited" else ("".join(r) + "\n") for r in rows)
+        if raw != want: return {"expected": "after the failing close() the file holds the accepted rows %r" % want, "observed": repr(raw)}
+        return None
+    finally:
+        shutil.rmtree(d, ignore_errors=True)
+
+
 def unit_writer_sweep():
     def run(ctx):
         o = WriterOracle(); f = WriterFileOracle()
         limit = 10**9 if ctx.thorough else o.quick_cases
         return [sweep("C14/sweep/write then read back", itertools.islice(o.cases(ctx), limit), o.check, "bounded", o.bound, describe=o.describe, function="validio.Writer + rowio writers + validio.rows", unit="C14.sweep"),
-                sweep("C14/sweep/write to a file in the CID's encoding, read the file back", f.cases(ctx), f.check, "bounded", f.bound, describe=f.describe, function="validio.Writer + rowio writers + validio.rows", unit="C14.sweep")]
+                sweep("C14/sweep/write to a file in the CID's encoding, read the file back", f.cases(ctx), f.check, "bounded", f.bound, describe=f.describe, function="validio.Writer + rowio writers + validio.rows", unit="C14.sweep"),
+                sweep("C14/sweep/a failing end-of-data check at close() still leaves the accepted rows in a closed file", ["delimited", "fixed"], _writer_close_with_failing_end_check, "bounded", "2 formats, 3 rows, DistinctCount failing at close",
+                      describe=lambda c: {"format": c}, function="validio.Writer.close", unit="C14.sweep")]
     return NativeUnit("C14.sweep", "bounded sweep: Writer emits exactly the accepted rows, nothing for rejected ones, output validates again (incl. after an earlier read with the same CID)", ["C14", "C08"], run, kind="bounded")
 
 
